@@ -830,6 +830,22 @@ def run(ctx: Ctx):
                         ionos[int(rng.integers(len(ionos)))]))
     for t, (H, b, io) in enumerate(configs):
         run_chain(ctx, w, H, b, io, n, t)
+    # ---- what the calling program logs is inert (harness/logmode.py): field rows and SNR of the same events, the random draws
+    # seeded the same way, at the default level and under DEBUG logging, for three configurations
+    import logmode
+    for (H_l, b_l, io_l) in configs[:3]:
+        cfg_l = make_config(w.nss, H_l, b_l[0], b_l[1], io_l)
+        ev_l, _lab = gen_events(rng, 24, H_l, w.altdec)
+        args_l = [np.array(ev_l[k], dtype=np.float64) for k in ("beta", "alt", "len", "theta", "path", "energy")]
+
+        def call_l(cfg_l=cfg_l, args_l=args_l, H_l=H_l, b_l=b_l):
+            import contextlib
+            import io as _io
+            with contextlib.redirect_stdout(_io.StringIO()), np.errstate(all="ignore"):
+                ef = np.asarray(w.R.EASRadio(cfg_l)(*[a.copy() for a in args_l]))
+                snr = np.asarray(w.A.calculate_snr(ef, (float(b_l[0]), float(b_l[1])), float(H_l), 10, 1.8))
+            return ef, snr
+        logmode.check(ctx, "EASRadio.__call__ / calculate_snr", call_l, {"detector_altitude": H_l, "band": list(b_l), "ionosphere": io_l, "events": 24})
     # square batches: exactly as many events as the band has bins (an axis told by its length would be ambiguous there)
     for (lo_, hi_) in [(30, 300), (30, 80), (300, 1000)][: (3 if ctx.thorough else 2)]:
         run_chain(ctx, w, float(rng.choice([33.0, 525.0])), (lo_, hi_), ionos[0], (hi_ - lo_) // 10, 9000 + lo_)
